@@ -32,7 +32,8 @@ open_("D7", "C03", "any UPDATE of a table that has a PRIMARY KEY / UNIQUE index 
 open_("D24", "C03", "UPDATE of a column of a PRIMARY KEY table fails with 'unexpected data type: Int'", "O-res", "history_contains_update", "findings/D24-update-of-column-on-pk-table.json")
 open_("D25", "C03", "after UPDATE, a DELETE followed by a read in the same transaction shows the pre-update version again", "O-res", "history_contains_update", "findings/D25-own-delete-after-update-shows-old-version.json")
 fixed("F1", "C03", "fe2afc8", "INSERT of NULL into a PRIMARY KEY/UNIQUE column failed only after the row was stored: the row stayed and a later committed insert was lost", "O-state", "findings/F1-null-into-unique-column-leaves-row.json")
-open_("F3", "C03", "with more than three relations (tables + indexes) concurrent inserts corrupt catalog rows: 'table not found', panics or process abort", "O-res", "more_than_3_relations", "findings/F3-many-relations-concurrent-catalog-updates.json")
+fixed("F3", "C03", "daba35a", "with more than three relations (tables + indexes) inserts corrupted catalog rows: 'table not found', panics or process abort (a catalog row replaced by a smaller one moved the page's free space pointer)", "O-res", "findings/F3-many-relations-concurrent-catalog-updates.json")
+open_("F3b", "C15", "a table with several indexes: the next CREATE UNIQUE INDEX fails with 'Expected overflow frame' (the table's catalog row has outgrown a page cell and needs an overflow page)", "O-res", "more_than_3_relations", "findings/F3b-catalog-row-of-a-table-with-several-indexes-needs-an-overflow-page.json")
 
 # ---- open findings: constraints (C07) ----
 fixed("U1", "C07", "120fb94", "after an INSERT of key K was rolled back, K could be inserted twice: the UNIQUE check finds the aborted index entry and misses the live one", "O-res", "findings/U1-key-freed-by-rollback-can-be-inserted-twice.json")
@@ -46,9 +47,11 @@ for prop in ("C07",):
 
 # ---- open findings: VACUUM (C13) ----
 fixed("D14", "C13", "cc4fedb", "VACUUM removed a row whose DELETE had been rolled back (or was still pending: VACUUM aborts it)", "O-state", "findings/D14-vacuum-removes-row-whose-delete-was-rolled-back.json")
-open_("D29", "C13", "CREATE TABLE after a VACUUM panics (types/core.rs:341) and kills the worker", "O-res", "ddl_after_vacuum", "findings/D29-create-table-after-vacuum-panics.json")
-open_("D29b", "C13", "with two tables in the catalog, inserts after a VACUUM panic (types/core.rs:341)", "O-res", "vacuum_with_more_than_one_table", "findings/D29b-insert-after-vacuum-with-two-tables-panics.json")
-open_("D29c", "C13", "UPDATE, VACUUM, UPDATE leaves the table unreadable ('btree page not found: 0')", "O-res", "vacuum_of_updated_rows", "findings/D29c-update-vacuum-update-loses-table.json")
+fixed("D29", "C13", "daba35a", "CREATE TABLE after a VACUUM panicked (types/core.rs:341) and killed the worker (VACUUM shrinks catalog rows in place)", "O-res", "findings/D29-create-table-after-vacuum-panics.json")
+fixed("D29b", "C13", "daba35a", "with two tables in the catalog, inserts after a VACUUM panicked (types/core.rs:341)", "O-res", "findings/D29b-insert-after-vacuum-with-two-tables-panics.json")
+fixed("D29c", "C13", "daba35a", "UPDATE, VACUUM, UPDATE left the table unreadable ('btree page not found: 0')", "O-res", "findings/D29c-update-vacuum-update-loses-table.json")
+fixed("D31", "C10", "daba35a", "a cell replaced by a smaller one (an update with a shorter payload) moved the free space pointer; the next insert overwrote the head of the lowest cell of the page: keys read back as garbage", "O-structure", "findings/D31-update-with-a-smaller-payload-corrupts-the-next-insert.json")
+open_("D31e", "C10", "cells of mixed sizes up to ~650 bytes on 4 KiB pages with 5-6 minimum keys: an interior page that is not yet 'overflown' cannot take a divider as large as a leaf cell; the insert fails with 'Buffer overflow ... on a btreepage'", "O-map", "mixed_cell_sizes_with_large_cells", "findings/D31e-mixed-sizes-with-large-cells-interior-page-cannot-take-the-divider.json")
 open_("V1", "C13", "statements executed in a session after VACUUM aborted its transaction are visible to everyone at once; its ROLLBACK fails with 'Transaction not found'", "O-state", "statement_in_session_after_vacuum_aborted_it", "findings/V1-statements-after-vacuum-aborted-the-session-are-visible-at-once.json")
 
 # ---- open findings: DDL (C15) ----
